@@ -41,8 +41,8 @@ CleanRun(o) == ~EffectiveInterruptPossible(o) /\ o.failed = {} /\ ~o.aborted
 
 (* predecessors of f in the direction of the run *)
 DirPreds(E, order, f) == IF order = "fwd" THEN Preds(E, f) ELSE Succs(E, f)
-(* C is a transitive closure; is a "before" b in the direction of the run? *)
-DirBefore(C, order, a, b) == IF order = "fwd" THEN <<a, b>> \in C ELSE <<b, a>> \in C
+(* C is a reachability map (Graph!Reach); is a "before" b in the direction of the run? *)
+DirBefore(C, order, a, b) == IF order = "fwd" THEN HasPath(C, a, b) ELSE HasPath(C, b, a)
 
 ---------------------------------------------------------------------------
 (* C01  conflicting functions are never in flight together                 *)
@@ -52,9 +52,9 @@ C01_HandOut(reads, writes, f, inflight) ==
 (* design-level halves: the builder joins every conflicting pair by a path, *)
 (* the scheduler never has two path-related functions in flight             *)
 C01_ConflictOrdered(n, reads, writes, C) ==
-  \A p \in ConflictPairs(n, reads, writes) : p \in C \/ <<p[2], p[1]>> \in C
+  \A p \in ConflictPairs(n, reads, writes) : HasPath(C, p[1], p[2]) \/ HasPath(C, p[2], p[1])
 C01_PathExclusion(C, inflight) ==
-  \A a, b \in inflight : a # b => <<a, b>> \notin C
+  \A a, b \in inflight : a # b => ~HasPath(C, a, b)
 
 ---------------------------------------------------------------------------
 (* C02  nothing is handed out before everything it depends on (logic /     *)
@@ -94,8 +94,9 @@ C06_Eager(n, E, order, started, ended) ==
   \A f \in (1..n) \ started : \E p \in DirPreds(E, order, f) : p \notin ended
 (* every edge the user did not add is a Data edge between conflicting functions *)
 C06_DataOnlyForConflict(built, ue, reads, writes) ==
+  LET UP == PairsOfSeq(ue) IN
   \A i \in DOMAIN built :
-    (\A j \in DOMAIN ue : <<ue[j][1], ue[j][2]>> # <<built[i][1], built[i][2]>>)
+    <<built[i][1], built[i][2]>> \notin UP
       => built[i][3] = "data" /\ Conflict(reads, writes, built[i][1], built[i][2])
 
 ---------------------------------------------------------------------------
@@ -148,9 +149,10 @@ C10_HandOut(o, inflightAfter) ==
 ---------------------------------------------------------------------------
 (* C11  build(): total, faithful, orders every conflict                     *)
 C11_KeepsUserEdges(built, ue) ==
-  /\ \A j \in DOMAIN ue : \E i \in DOMAIN built : built[i] = ue[j]
-  /\ \A i \in DOMAIN built : built[i][3] # "data" => \E j \in DOMAIN ue : ue[j] = built[i]
-  /\ \A i, j \in DOMAIN built : i # j => <<built[i][1], built[i][2]>> # <<built[j][1], built[j][2]>>
+  LET B == Range(built)  U == Range(ue) IN
+  /\ U \subseteq B                                              \* every accepted edge, with its kind
+  /\ { e \in B : e[3] # "data" } \subseteq U                    \* additional edges only of kind Data
+  /\ Cardinality(PairsOfSeq(built)) = Len(built)                \* one edge per ordered pair
 C11_DataOnlyBetweenConflicting(built, reads, writes) ==
   \A i \in DOMAIN built : built[i][3] = "data" => Conflict(reads, writes, built[i][1], built[i][2])
 
@@ -158,11 +160,19 @@ C11_DataOnlyBetweenConflicting(built, reads, writes) ==
 (* C12  direction by rank then insertion; no redundant data edge            *)
 C12_Direction(n, reads, writes, UC, C, rank) ==
   \A p \in ConflictPairs(n, reads, writes) :
-    (p \notin UC /\ <<p[2], p[1]>> \notin UC /\ Before(rank, p[1], p[2])) => p \in C
+    (~HasPath(UC, p[1], p[2]) /\ ~HasPath(UC, p[2], p[1]) /\ Before(rank, p[1], p[2])) => HasPath(C, p[1], p[2])
 C12_NoRedundantData(n, built) ==
   \A i \in DOMAIN built :
     built[i][3] = "data" =>
       built[i][2] \notin ReachFrom(n, PairsOfSeq(built) \ {<<built[i][1], built[i][2]>>}, built[i][1])
+(* the same for an acyclic graph whose closure C is at hand: a second path a ~> b must leave a through       *)
+(* another successor c and continue c ~> b (it cannot come back to a)                                        *)
+C12_NoRedundantDataC(built, C) ==
+  LET E == PairsOfSeq(built) IN
+  \A i \in DOMAIN built :
+    built[i][3] = "data" =>
+      LET a == built[i][1]  b == built[i][2] IN
+      \A c \in Succs(E, a) \ {b} : ~HasPath(C, c, b)
 
 ---------------------------------------------------------------------------
 (* C13  ranks                                                               *)
